@@ -123,7 +123,9 @@ static void dump_new_records(int quiet)
 #define NSLOT 64
 static char strpool[NSLOT][160];
 static char *strptr[NSLOT];
-static char *wallpage; /* two pages: readable, PROT_NONE */
+/* page 0 readable, page 1 PROT_NONE (static: same address in every run of a non-PIE binary) */
+static char wallarea[3 * 4096] __attribute__((aligned(4096)));
+static char *wallpage;
 static long objpool[NSLOT][4];
 
 static unsigned char fillb;
@@ -170,16 +172,19 @@ int main(void)
 	uint64_t fpret = 0;
 	unsigned char st0[16] = { 0 };
 	int have_st0 = 0;
-	long page = sysconf(_SC_PAGESIZE);
+	long page = 4096;
 	char *nonepage;
 
 	memset(&regs, 0, sizeof(regs));
 	setvbuf(stdout, NULL, _IOFBF, 1 << 16);
 	maxstack = getenv("UFTRACE_MAX_STACK") ? atoi(getenv("UFTRACE_MAX_STACK")) : 1024;
 
-	nonepage = mmap(NULL, page, PROT_NONE, MAP_PRIVATE | MAP_ANONYMOUS, -1, 0);
-	wallpage = mmap(NULL, 2 * page, PROT_READ | PROT_WRITE, MAP_PRIVATE | MAP_ANONYMOUS, -1, 0);
-	mprotect(wallpage + page, page, PROT_NONE);
+	wallpage = wallarea;
+	nonepage = wallarea + page + 16;
+	if (mprotect(wallarea + page, page, PROT_NONE) < 0) {
+		printf("SYMS-FAILED mprotect\n");
+		return 1;
+	}
 
 	/* warm up: creates the thread data (allocates argbuf) */
 	{
@@ -208,8 +213,9 @@ int main(void)
 		printf("SYMS");
 		for (i = 0; i < NFUNC; i++)
 			printf(" %lx", (unsigned long)funcs[i]);
-		printf(" tramp=%lx none=%lx small=10 argbuf_size=%d\n", mcount_return_fn, (unsigned long)nonepage,
-		       ARGBUF_SIZE);
+		printf(" tramp=%lx none=%lx wall=%lx strpool=%lx objpool=%lx argbuf_size=%d\n", mcount_return_fn,
+		       (unsigned long)nonepage, (unsigned long)(wallarea + page), (unsigned long)strpool,
+		       (unsigned long)objpool, ARGBUF_SIZE);
 	}
 	dump_new_records(1); /* skip the warm-up records */
 
